@@ -67,7 +67,7 @@ func (o *rop) String() string {
 	s := pathString(o.path) + o.name
 	js := " " + strconv.Itoa(o.j)
 	switch o.name {
-	case "has", "get", "getter", "which", "llen", "mlen", "mrange", "clear", "mut", "newf", "lappm":
+	case "has", "get", "getter", "which", "llen", "mlen", "mrange", "clear", "mut", "mutset", "newf", "lappm":
 		s += js
 	case "lget", "ltrunc":
 		s += js + " " + strconv.Itoa(o.i)
@@ -525,7 +525,7 @@ func (x *rmach) exec1(op *rop) string {
 		x.invalidate(pk, mi, op.j, true)
 		m.Clear(fd)
 		return "ok"
-	case "mut":
+	case "mut", "mutset":
 		if f.Shape == vschema.Oneof {
 			x.invalidate(pk, mi, op.j, false)
 		}
@@ -538,6 +538,11 @@ func (x *rmach) exec1(op *rop) string {
 			case vschema.Map:
 				x.views[k] = v.Map()
 			}
+		}
+		if op.name == "mutset" {
+			// store the field's own mutable view back: an identity (the view aliases the field), and the
+			// retained view keeps writing through afterwards
+			m.Set(fd, v)
 		}
 		return "ok"
 	case "newf":
